@@ -427,12 +427,15 @@ func DecodeUnverifiedBaseResponse(encodedResponse string) (*types.UnverifiedBase
 		return nil, err
 	}
 
-	var response *types.UnverifiedBaseResponse
+	// Parse the document the same way the validating entry points do, so that the
+	// values reported here are the ones validation will later see.
+	_, el, err := parseResponse(raw, defaultMaxDecompressedResponseSize)
+	if err != nil {
+		return nil, err
+	}
 
-	err = maybeDeflate(raw, defaultMaxDecompressedResponseSize, func(maybeXML []byte) error {
-		response = &types.UnverifiedBaseResponse{}
-		return xml.Unmarshal(maybeXML, response)
-	})
+	response := &types.UnverifiedBaseResponse{}
+	err = xmlUnmarshalElement(el, response)
 	if err != nil {
 		return nil, err
 	}
@@ -503,12 +506,15 @@ func DecodeUnverifiedLogoutResponse(encodedResponse string) (*types.LogoutRespon
 		return nil, err
 	}
 
-	var response *types.LogoutResponse
+	// Parse the document the same way the validating entry points do, so that the
+	// values reported here are the ones validation will later see.
+	_, el, err := parseResponse(raw, defaultMaxDecompressedResponseSize)
+	if err != nil {
+		return nil, err
+	}
 
-	err = maybeDeflate(raw, defaultMaxDecompressedResponseSize, func(maybeXML []byte) error {
-		response = &types.LogoutResponse{}
-		return xml.Unmarshal(maybeXML, response)
-	})
+	response := &types.LogoutResponse{}
+	err = xmlUnmarshalElement(el, response)
 	if err != nil {
 		return nil, err
 	}
